@@ -161,6 +161,25 @@ CLAIMED = {
         technique="TLA+ refinement (EndpointerImpl => EndpointerAbs) and history predicates checked by TLC; exhaustive decision "
                   "sequences and state-graph edge tours replayed on the real library via linker wrap; TLC trace validation",
         design="4/C15"),
+    "C04": dict(
+        text="TLC runs the transcribed backtrace of state_align_search_finish and alignment_propagate on every best path the "
+             "constrained second pass can deliver (every monotone state sequence through 1-3 words x 1-2 phones x 2-3 states "
+             "inside the words' windows, arbitrary frame scores): every state gets a start, a positive duration and a score, "
+             "levels are contiguous from frame 0, words keep the imposed boundaries, every frame's score is attributed exactly "
+             "once (the pre-fix variant violates this, as a negative control). Alignment trees recorded through the public "
+             "iterators over the decode matrix (final and partial results, streaming, buffered search, default / compallsen / "
+             "open-beam configurations) are validated by TLC against AlignPred together with the first-pass segmentation of "
+             "the same result: same words, starts and durations; phones = dictionary pronunciation; states = the phone's "
+             "emitting states; children partition parents; parent score = sum of children; word score = acoustic part of the "
+             "first-pass segment score (equality with beams open, >= otherwise).",
+        note="The word-score clause is evaluated only with compallsen=yes, and not for the last word of a result nor for "
+             "one-phone real words (the two passes use different context models there by design). The Viterbi recursion of "
+             "the second pass is abstracted in the model (any valid path). Trusted: TLC, recorder, dictionary/model-definition "
+             "lookups. Five genuine defects found and repaired (fix: f6619c0, 0280554, a166ee0, 28a29a5, 8b2df5f) plus the "
+             "lextree fix 45754d6 this clause depends on.",
+        technique="TLA+ transcription of the alignment backtrace checked by TLC over all paths; TLC trace validation of recorded "
+                  "alignment trees against the property-level specification",
+        design="4/C04"),
 }
 
 PENDING = "not built yet in this round (planned, see DESIGN.md section 4); no check is registered, so nothing is claimed"
